@@ -285,14 +285,7 @@ func (w *world) observe(kind int, gs []gen, pk int, p probe) xcase {
 	js := map[string]interface{}{"case": "seal", "kind": kindNames[kind], "key": pk, "genuine_len": len(gs[0].text),
 		"genuine_key": gs[0].key, "presented": fmt.Sprintf("%q", clip(s)), "unmarshal": obsJ, "load_session": store,
 		"value_type": map[bool]string{true: "SessionState", false: "StateParameter"}[target.sess != nil]}
-	genuine := false
-	for _, g := range gs {
-		if g.key == pk && g.text == s {
-			genuine = true
-		}
-	}
-	hot := (err == nil && !genuine) || store == 2 || (store >= 10) != (err == nil && store != 0)
-	return xcase{Case: c.Case{Coq: coq, JSON: js}, needs: needs, hot: hot}
+	return xcase{Case: c.Case{Coq: coq, JSON: js}, needs: needs}
 }
 
 func clip(s string) string {
@@ -669,8 +662,6 @@ func main() {
 		emit(encCase(bs))
 	}
 
-	nCorpus := len(cases)
-
 	// generated: three quarters sealed-value probes, one quarter byte-level base64
 	nSeal := a.N * 3 / 4
 	target := len(cases) + nSeal
@@ -695,7 +686,6 @@ func main() {
 		m := [][2]bool{{false, false}, {false, false}, {true, false}, {true, true}, {false, true}}[r.Intn(5)]
 		emit(decCase(m[0], m[1], s))
 	}
-	cases = orderCases(cases, nCorpus)
 	c.Must(writeShards(a.Out, "Corr_C02", cases, w.defs, a.Shard))
 	fmt.Printf("cases=%d\n", len(cases))
 }
